@@ -224,6 +224,8 @@ def gen_std(r, depth=0):
 def equal_std(a, b):
     """== with the fixes the types need: nan-insensitive containers, exceptions by type and args,
     partial by func/args/keywords, struct_time by fields"""
+    if LOOSE_PYTZ[0] and isinstance(a, datetime.tzinfo) and isinstance(b, datetime.tzinfo):
+        return equal_tz(a, b)
     if type(a) is not type(b):
         return False
     if isinstance(a, BaseException):
@@ -259,12 +261,31 @@ def equal_std(a, b):
 def equal_tz(a, b):
     if a is None or b is None:
         return a is b
+    if LOOSE_PYTZ[0] and pytz is not None and isinstance(a, pytz.tzinfo.DstTzInfo) and \
+            isinstance(b, pytz.tzinfo.DstTzInfo):
+        # the open finding: a localized pytz instance is rebuilt as a plain DstTzInfo WITHOUT its zone,
+        # but with the same offset, dst and name (the triple the printer shows)
+        return all(getattr(a, k, None) == getattr(b, k, 1) for k in ('_utcoffset', '_dst', '_tzname'))
     if type(a) is not type(b):
         return False
     if isinstance(a, datetime.timezone):
         return a == b and a.tzname(None) == b.tzname(None)
     return a == b or (getattr(a, 'zone', None) == getattr(b, 'zone', 1) and
                       getattr(a, '_utcoffset', None) == getattr(b, '_utcoffset', 1))
+
+
+LOOSE_PYTZ = [False]
+
+
+def only_the_pytz_finding(v, cfg):
+    """the failure is exactly the open finding: with per-transition pytz instances compared by the
+    triple (offset, dst, name) the printer shows, the output does reconstruct the value"""
+    LOOSE_PYTZ[0] = True
+    try:
+        _text, msg = oracle(v, cfg)
+    finally:
+        LOOSE_PYTZ[0] = False
+    return msg is None
 
 
 def contains_localized(v, depth=0):
@@ -355,7 +376,8 @@ def main(tier):
             text, msg = oracle(v, cfg)
             if text and '\n' in text:
                 nontriv += 1
-            if msg and contains_localized(v) and 'C07-pytz-localized' in run.open_findings():
+            if msg and contains_localized(v) and 'C07-pytz-localized' in run.open_findings() and \
+                    only_the_pytz_finding(v, cfg):
                 if not known_reported:
                     known_reported.append(1)
                     f = run.open_findings()['C07-pytz-localized']
